@@ -21,16 +21,16 @@ import (
 // A loop whose bounds skip an element, whose index variable is assigned in the body, or whose shape is not listed is
 // not an ElemLoop (ok=false): callers treat that as "cannot show that every element is visited in order".
 type ElemLoop struct {
-	Stmt  ast.Stmt
-	Base  ast.Expr // the slice expression B
-	Desc  bool
-	Body  *ast.BlockStmt
-	info  *types.Info
-	value types.Object          // range value variable (nil if none)
-	index types.Object          // index variable (nil if none)
-	off   int64                 // element = B[index - off]
-	alias map[types.Object]bool // body locals defined once as `x := <element>`
-	window types.Object         // the shrinking sub-slice variable of the last two shapes (nil otherwise)
+	Stmt   ast.Stmt
+	Base   ast.Expr // the slice expression B
+	Desc   bool
+	Body   *ast.BlockStmt
+	info   *types.Info
+	value  types.Object          // range value variable (nil if none)
+	index  types.Object          // index variable (nil if none)
+	off    int64                 // element = B[index - off]
+	alias  map[types.Object]bool // body locals defined once as `x := <element>`
+	window types.Object          // the shrinking sub-slice variable of the last two shapes (nil otherwise)
 }
 
 // IsElem reports whether e denotes the element of the current iteration: the range value variable, or B[i-off].
